@@ -574,9 +574,44 @@ def run_dynamics(ctx, props, sl_bias=0.35, quick=120, thorough=8000):
         specs = [dynamics_spec(ctx.rng, ctx, sl_bias=sl_bias) for _ in range(min(batch, n - done))]
         eval_dynamics(ctx, specs, props)
         done += len(specs)
+    # long runs (thorough: many, quick: a few): oracles on every instant, model in lock-step on sampled instants
+    nlong = ctx.budget(6, 400) * ctx.boost
+    for _ in range(nlong):
+        spec = gen.gen_spec(ctx.rng, random_units=ctx.rng.random() < 0.7, sl_bias=sl_bias, reuse=0.2)
+        dt = 2.0 ** -ctx.rng.randint(4, 8)
+        if ctx.rng.random() < 0.5:
+            spec['rules'] = gen.const_rules(ctx.rng, 4.0, random_units=False)
+        op, _, _ = gen.run_op(ctx.rng, dt_si=dt, steps=(60, 300), unit='sec')
+        spec['ops'] = [op]
+        if ctx.rng.random() < 0.4:
+            op2, _, _ = gen.run_op(ctx.rng, dt_si=dt, steps=(20, 80), unit=ctx.rng.choice(['sec', 'ms']))
+            spec['ops'].append(op2)
+        tr, b = sim.simulate(spec)
+        case = {'t': 'sim', 'spec': spec}
+        if tr['build_error'] is not None:
+            ctx.violation(case, {'why': f"a generated valid powertrain was rejected: {tr.get('build_msg')}"})
+            continue
+        ctx.case_done(case, nontrivial=True)
+        ctx.count('long runs')
+        ctx.count('locked instants', sum(1 for x in tr['locked'] if x))
+        for pid in props:
+            viol = oracle_C16(spec, tr)[0] if pid == 'C16' else oracle_C17(spec, tr, None) if pid == 'C17' else ORACLES[pid](spec, tr)
+            for msg, det in viol[:1]:
+                ctx.violation(case, {'why': msg, **det, 'property': pid})
+        if ctx.driver.available:
+            reqs = sim.lockstep_requests(spec, tr, max_steps=30)
+            for (j, _), ans in zip(reqs, ctx.driver.ask([ln for _, ln in reqs])):
+                d = sim.compare_step(tr, j, ans)
+                if d is not None:
+                    if near_threshold(spec, tr):
+                        ctx.count('history excluded: decision within rounding of its threshold')
+                    else:
+                        ctx.mismatch(case, d, ans[:200])
+                    break
     ctx.rule = ('random chains of 2-12 elements (motor, flywheels, spur/helical/worm matings in both orientations), '
                 'every input in a random unit, affine + quadratic loads, ConstantPWM controllers, schedules '
-                'run / run+continue / run+reset+rerun (same or new solver) / run with stop condition, <= 16 steps; '
+                'run / run+continue / run+reset+rerun (same or new solver) / run with stop condition, <= 16 steps, plus runs of 60-380 '
+                'steps checked by the oracle at every instant and by the model in lock-step; '
                 'the whole history is compared with the Lean model and the property oracle is evaluated on it; '
                 'non-trivial = at least 3 recorded instants')
 
